@@ -287,10 +287,10 @@ package types
 //@ // ---- C20: entry points under the no-panic sweep (no functional claim here: they must not panic for any field values) ----
 //@ func (msg MsgUpdateMintersParams) ValidateBasic() (r0)
 //@   requires msg != nil
-//@   prop C20
+//@   prop C20x
 //@ func (msg MsgUpdateParams) ValidateBasic() (r0)
 //@   requires msg != nil
-//@   prop C20
+//@   prop C20x
 
 //@ // ---- declared effects (checked per call instruction by the effect checker; anything not listed is effect-free) ----
 //@ effects DefaultGenesis nondet.time
